@@ -312,6 +312,16 @@ def finite_observations(st, r):
     if st.model:
         x = st.model[r.randrange(n)]
         obs.append(Obs("in", "%s in s" % src(x), x, "present"))
+        # membership is by ==, which is by value across numeric kinds: needles of another kind that equal an
+        # element (float, complex, rational arithmetic giving the integer back), spelt with every membership
+        # builtin, and near misses that equal no element
+        if all(isinstance(e, int) and not isinstance(e, bool) for e in st.model) and abs(x) < 2 ** 52:
+            xs = src(x)
+            form = r.choice(["float(%s) in s", "(%s + 0.0) in s", "(%s + 0i) in s", "(%s * (2 / 2)) in s", "s contains float(%s)",
+                             "if (float(%s) not_in s) 0 else 1", "(\\t_ -> t_ in s)(float(%s))"])
+            obs.append(Obs("in-kind", form % xs, x, "present"))
+            miss = r.choice(["(%s + 0.5) in s", "(%s + 1 / 2) in s", "(%s + 1i) in s", "s contains (%s + 0.25)"])
+            obs.append(Obs("in-kind", miss % xs, None, "absent"))
     obs.append(Obs("in", '"zz" in s', "zz", "absent"))
     if n <= 8:
         for k in sorted({n, n + 1, max(n - 1, 1)}):
@@ -359,7 +369,10 @@ def infinite_observations(st, r):
         obs.append(Obs("take", "s take %d" % k, k, "nonneg"))
     obs.append(Obs("for-break", "(\\ -> (k := []; for (x <- s) (k append= x; if (len(k) >= 5) break); k))()"))
     obs.append(Obs("unpack-prefix", "(for (x <- s take 3) yield x)"))
-    obs.append(Obs("in", "%s in s" % src(st.gen(6)[r.randrange(6)]), None, "present"))
+    el = st.gen(6)[r.randrange(6)]
+    obs.append(Obs("in", "%s in s" % src(el), None, "present"))
+    if isinstance(el, int) and not isinstance(el, bool) and abs(el) < 2 ** 52:
+        obs.append(Obs("in-kind", r.choice(["float(%s) in s", "(%s + 0i) in s", "s contains (%s + 0.0)"]) % src(el), None, "present"))
     r.shuffle(obs)
     return obs
 
@@ -401,6 +414,9 @@ def expect_finite(ob, L):
         return ("v", {"l": L[ob.arg:]})
     if k == "in":
         return ("v", {"i": "1" if to_canon(ob.arg) in L else "0"})
+    if k == "in-kind":
+        # (L, not the model: the recorded elements are what this position of the stream really holds)
+        return ("v", {"i": "1" if ob.cls == "present" and to_canon(ob.arg) in L else "0"})
     if k == "derived-len":
         if ob.cls == "tail":
             return ("v", {"i": str(max(n - 1, 0))})          # tail is s[1:]: it clamps
@@ -450,7 +466,7 @@ def expect_infinite(ob, st):
         return ("v", {"l": c(g(5))})
     if k == "unpack-prefix":
         return ("v", {"l": c(g(3))})
-    if k == "in":
+    if k == "in" or k == "in-kind":
         return ("v", {"i": "1"})
     raise KeyError(k)
 
